@@ -67,7 +67,14 @@ def r2(run):
     run.floor("functions below insert_frame (incl. key constructors)", len(seen), 4)
     for d in sorted(seen):
         b = facts.body(d)
-        bad = [(c.fn, c.sp) for c in b.calls() if c.bb in b.live_blocks() and c.fn.startswith(NONDET)]
+        nd = [c for c in b.calls() if c.bb in b.live_blocks() and c.fn.startswith(NONDET)]
+        ops = [c for c in b.calls() if c.bb in b.live_blocks() and c.fn in (C.BATCH_INSERT, C.BATCH_REMOVE)]
+        if ops:
+            # the function that fills the batch: what matters is that no such value reaches a key or a value of the batch
+            # (a write counter or a timing log next to the batch decides nothing about what is stored)
+            written = [y[1] for op in ops for a in op.arg_exprs()[1:] for y in walk(a) if y[0] == "call"]
+            nd = [c for c in nd if any(q.same_call(w, c) for w in written) or c.fn.startswith(("scru128::", "rand::"))]
+        bad = [(c.fn, c.sp) for c in nd]
         run.ob("%s|deterministic" % d, not bad, b.sp, "%s consults no id generator, clock or counter (%s)" % (d, bad), reason="import-not-idempotent")
     for info in batch_bodies(run):
         if info["body"].def_ != C.INSERT_FRAME:
